@@ -129,6 +129,8 @@ class Hist:
                         if d._snapshot is not None:
                             d._snapshot._sid = op["c"]
                         self.fn[op["f"]] = d(self.func(op["f"]))
+                    elif o == "wrap":
+                        self.fn[op["f"]] = _foreign(self.func(op["f"]))
                     elif o == "inv":
                         if op["k"] not in self.cls:
                             err = "skipped"
@@ -138,9 +140,7 @@ class Hist:
                                 co |= icontract.InvariantCheckEvent.CALL
                             if op["setattr"]:
                                 co |= icontract.InvariantCheckEvent.SETATTR
-                            truth = self.truth
-                            c = op["c"]
-                            icontract.invariant(lambda self: truth.get(c, True), description="c%d" % c, check_on=co)(self.cls[op["k"]])
+                            icontract.invariant(_inv_cond(self.truth, op["c"]), description="c%d" % op["c"], check_on=co)(self.cls[op["k"]])
                     elif o == "class":
                         if any(b not in self.cls for b in op["bases"]):
                             err = "skipped"
@@ -191,7 +191,78 @@ class Hist:
             if orig_hook is not None:
                 _mc._register_for_hypothesis = orig_hook
         k_of = dict((id(c), k) for k, c in self.cls.items())
-        return {"steps": steps, "hook": [k_of.get(id(c), None) for c in self.hook]}
+        probed, mismatches = self.probe_verdicts()
+        return {"steps": steps, "hook": [k_of.get(id(c), None) for c in self.hook], "verdicts_probed": probed,
+                "verdict_mismatches": mismatches}
+
+    def probe_verdicts(self):
+        """C18: judging a call by hand from the introspected lists (the checker found through the decorator stack,
+        the class's invariant lists) must give the verdict of the real call - for every single-false truth assignment."""
+        import re
+        probed, bad = 0, []
+        for k, cls in self.cls.items():
+            try:
+                inst = object.__new__(cls)
+            except BaseException:  # noqa: B902
+                continue
+            for key in ("m", "n"):
+                raw = inspect.getattr_static(cls, key, None)
+                if not inspect.isfunction(raw):
+                    continue
+                ck = _ck.find_checker(raw)
+                pre = [list(g) for g in getattr(ck, "__preconditions__", [])] if ck is not None else []
+                posts = list(getattr(ck, "__postconditions__", [])) if ck is not None else []
+                invs = list(getattr(cls, "__invariants_on_call__", []))
+                wrapped_for_inv = bool(invs)
+                ids = sorted(set(_cid(c) for g in pre for c in g) | set(_cid(c) for c in posts) | set(_cid(c) for c in invs))
+                for false_id in [None] + ids:
+                    self.truth.clear()
+                    if false_id is not None:
+                        self.truth[false_id] = False
+                    # by hand
+                    manual = ["ok"]
+                    bad_inv = [c for c in invs if _cid(c) == false_id]
+                    if wrapped_for_inv and bad_inv:
+                        manual = ["viol", false_id]
+                    else:
+                        ok_pre = not pre or any(all(_cid(c) != false_id for c in g) for g in pre)
+                        if not ok_pre:
+                            manual = ["viol", false_id]
+                        elif any(_cid(c) == false_id for c in posts):
+                            manual = ["viol", false_id]
+                    try:
+                        getattr(inst, key)()
+                        real = ["ok"]
+                    except icontract.ViolationError as e:
+                        m = re.search(r"(?m)^c(\d+)\b", str(e))
+                        real = ["viol", int(m.group(1)) if m else None]
+                    except BaseException as e:  # noqa: B902
+                        real = ["raise", type(e).__name__, str(e)[:80]]
+                    probed += 1
+                    if real != manual:
+                        bad.append({"class": k, "member": key, "false": false_id, "by_hand": manual, "real": real,
+                                    "introspected": {"pre": [[_cid(c) for c in g] for g in pre], "posts": [_cid(c) for c in posts],
+                                                     "invCall": [_cid(c) for c in invs]}})
+        self.truth.clear()
+        return probed, bad[:5]
+
+
+def _inv_cond(truth, c):
+    def inv_cond(self):
+        return truth.get(c, True)
+
+    return inv_cond
+
+
+def _foreign(g):
+    """an ordinary third-party decorator written with functools.wraps"""
+    import functools
+
+    @functools.wraps(g)
+    def layer(*a, **k):
+        return g(*a, **k)
+
+    return layer
 
 
 def run(case):
